@@ -149,6 +149,50 @@ pub fn check(sc: &Scenario, env: &mut Env) -> Result<Outcome, HarnessError> {
             }
             sets.push((li, seen.into_iter().collect()));
         }
+        // every observer is shown the *same* entry: root segment, relative segment, depth and file
+        // type of one path do not depend on the layer that looks, nor on whether an upstream layer
+        // (or the glob) already discarded it
+        {
+            use std::collections::BTreeMap;
+            let mut seen: BTreeMap<&str, (&str, &str, usize, char, usize)> = BTreeMap::new();
+            for sw in &s.saws {
+                let key = sw.path.as_str();
+                let d = (sw.root.as_str(), sw.rel.as_str(), sw.depth, sw.ft, sw.layer);
+                match seen.get(key) {
+                    None => {
+                        seen.insert(key, d);
+                    },
+                    Some(first) => {
+                        if (first.0, first.1, first.2, first.3) != (d.0, d.1, d.2, d.3) {
+                            out.violate(
+                                "C16",
+                                "observe-once",
+                                wi,
+                                format!(
+                                    "{}: layers {} and {} were shown different descriptions of {:?}: (root {:?}, relative {:?}, depth {}, type {}) vs (root {:?}, relative {:?}, depth {}, type {})",
+                                    tag, first.4, d.4, key, first.0, first.1, first.2, first.3, d.0, d.1, d.2, d.3
+                                ),
+                                vec![format!("description:{}", key)],
+                            );
+                        }
+                    },
+                }
+            }
+            // ... and the same as the consumer is given, for entries that are yielded
+            for y in &s.ys {
+                if let Some(first) = seen.get(y.path.as_str()) {
+                    if (first.0, first.1, first.2, first.3) != (y.root.as_str(), y.rel.as_str(), y.depth, y.ft) {
+                        out.violate(
+                            "C16",
+                            "observe-once",
+                            wi,
+                            format!("{}: layer {} was shown a different description of {:?} than the consumer was given", tag, first.4, y.path),
+                            vec![format!("description:{}", y.path)],
+                        );
+                    }
+                }
+            }
+        }
         for pair in sets.windows(2) {
             if pair[0].1 != pair[1].1 {
                 let d: Vec<String> = pair[0].1.symmetric_difference(&pair[1].1).map(|p| format!("unequal:{}", p)).collect();
